@@ -30,6 +30,13 @@ var (
 	Zero = make([]byte, 32)
 )
 
+// zero32 returns a fresh 32-byte zero scalar. Results handed to the caller
+// must not alias the package-level Zero, or a caller editing its own result
+// would change the value seen by every later call.
+func zero32() []byte {
+	return make([]byte, 32)
+}
+
 // NonceHash method generates hashed secret based on ecdh.
 func NonceHash(pubKey, privKey []byte) ([32]byte, error) {
 	return nonceHash(pubKey, privKey)
@@ -58,8 +65,8 @@ func UnblindOutputWithKey(
 		return &UnblindOutputResult{
 			Value:               value,
 			Asset:               out.Asset[1:],
-			ValueBlindingFactor: Zero,
-			AssetBlindingFactor: Zero,
+			ValueBlindingFactor: zero32(),
+			AssetBlindingFactor: zero32(),
 		}, nil
 	}
 
@@ -83,8 +90,8 @@ func UnblindOutputWithNonce(
 		return &UnblindOutputResult{
 			Value:               value,
 			Asset:               out.Asset[1:],
-			ValueBlindingFactor: Zero,
-			AssetBlindingFactor: Zero,
+			ValueBlindingFactor: zero32(),
+			AssetBlindingFactor: zero32(),
 		}, nil
 	}
 
@@ -285,7 +292,7 @@ func CalculateScalarOffset(
 	}
 
 	if bytes.Equal(vn, result) {
-		return Zero, nil
+		return zero32(), nil
 	}
 
 	r, err = secp256k1.EcPrivKeyTweakAdd(ctx, result, vb)
@@ -406,7 +413,7 @@ func ComputeAndAddToScalarOffset(
 		}
 
 		if bytes.Equal(s, nv) {
-			return Zero, nil
+			return zero32(), nil
 		}
 
 		r, err = secp256k1.EcPrivKeyTweakAdd(ctx, s, scalarOffset)
